@@ -107,6 +107,45 @@ Theorem C03_tftp_outputs_own : forall tr st k j x o,
   Forall (fun r : N * reply => fst r = j) (fst o) /\ Forall (fun e : N * ev => fst e = j) (snd o).
 Proof. exact tftp_outputs_own. Qed.
 
+(* ---- the ADDRESS dimension.  The limiter's key (net.IP.String) and the key of the tftp transfer
+   table (RemoteAddr().String()) as the model has them are one-to-one: for ALL byte strings of
+   length 4 and 16, all zones and all ports, two addresses have one key only if they are one
+   host (equal after net.IP.To16), in the same zone, with the same port ... *)
+Theorem C03_peer_key_injective :
+  (forall a b, wfb a -> wfb b -> ip_len a -> ip_len b -> ip_key a = ip_key b -> to16 a = to16 b) /\
+  (forall a b z1 z2 p1 p2,
+     wfb a -> wfb b -> ip_len a -> ip_len b -> z1 < ZONES -> z2 < ZONES -> p1 < PORTS -> p2 < PORTS ->
+     peer_key a z1 p1 = peer_key b z2 p2 -> to16 a = to16 b /\ z1 = z2 /\ p1 = p2).
+Proof. split; [exact ip_key_injective|exact peer_key_injective]. Qed.
+
+(* ... within one family (both 4 bytes or both 16 bytes) that is: the same bytes; and across the
+   families the only identification is the one the unchanged code makes everywhere (limiter,
+   transfer table, source-ip of events): a.b.c.d and ::ffff:a.b.c.d *)
+Theorem C03_peer_key_injective_same_family :
+  (forall a b z1 z2 p1 p2,
+     wfb a -> wfb b -> ip_len a -> length a = length b -> z1 < ZONES -> z2 < ZONES -> p1 < PORTS -> p2 < PORTS ->
+     peer_key a z1 p1 = peer_key b z2 p2 -> a = b /\ z1 = z2 /\ p1 = p2) /\
+  (forall a b, length a = 4%nat -> length b = 16%nat -> to16 a = to16 b -> b = V4PREFIX ++ a).
+Proof. split; [exact peer_key_same_family|exact to16_cross]. Qed.
+
+(* the keys of the harness's connections: equal exactly when the addresses are *)
+Theorem C03_connection_keys_faithful : forall i j,
+  (ip_of i = ip_of j <-> to16 (ip_bytes i) = to16 (ip_bytes j)) /\
+  (peer_of i = peer_of j <->
+   to16 (ip_bytes i) = to16 (ip_bytes j) /\ zone_of i = zone_of j /\ port_of i = port_of j).
+Proof. intros i j. split; [apply ip_of_faithful|apply peer_of_faithful]. Qed.
+
+(* tftp, stated on the addresses themselves: a client is isolated from every client on another
+   host - whatever the families, whether or not the source ports coincide, whether or not the low
+   four bytes coincide *)
+Theorem C03_tftp_isolated_from_other_hosts : forall i tr,
+  Forall (fun p : N * input => fst p = i \/ to16 (ip_bytes (fst p)) <> to16 (ip_bytes i)) tr ->
+  obs i (svc_run SVC_TFTP tr) = obs i (svc_run SVC_TFTP (own i tr)).
+Proof.
+  intros i tr H. apply tftp_frame. eapply Forall_impl; [|exact H].
+  intros p [Hp|Hp]; [left; exact Hp|right]. intro E. apply Hp. apply ip_of_faithful. exact E.
+Qed.
+
 (* the rate limiter (services.Limiter as a model: one bucket per key): the answers a key gets
    are those it would get if no other key ever called - whatever the other keys do, however
    often - and they are: the first BURST = 4 calls admitted, the rest refused *)
@@ -164,11 +203,41 @@ Proof. split; vm_compute; reflexivity. Qed.
 Example C03_nonvacuous_tftp :
   let tr := [(17, Tok 2 1 0); (34, Tok 2 2 0); (17, Tok 3 1 0); (34, Tok 4 1 0); (17, Tok 4 2 0)] in
   Forall (fun p : N * input => fst p = 17 \/ ip_of (fst p) <> ip_of 17) tr /\
-  obs 17 (svc_run SVC_TFTP tr) = ([4000; 4001; 4002], [mkEv 2 1; mkEv 3 100612]).
+  obs 17 (svc_run SVC_TFTP tr) = ([4000; 4001; 4002],
+     [mkEv 2 1; mkEv 3 ((hash_fill (hash_fill 0 (fill_of 17) 512) (fill_of 17) 100 * 10 + 1) * 100000 + 612)]).
 Proof.
   split; [|vm_compute; reflexivity].
   repeat (apply Forall_cons; [first [left; reflexivity | right; vm_compute; discriminate]|]); apply Forall_nil.
 Qed.
+
+(* addresses: two IPv6 clients with ONE source port (4117 = 2001:db8:9::101 : 40005,
+   4133 = 2001:db8:9::102 : 40005) upload at the same time - WRQ(A) WRQ(B) DATA(A) DATA(B);
+   each is acknowledged and each upload is recorded under its own address with its own file
+   name, length and bytes.  21 = 10.9.0.1:40005 in 4 bytes and FAM+21 = ::ffff:10.9.0.1 : 40005
+   are one peer; 3*FAM+21 = 2001:db8:9::a09:1 (the same low four bytes) is another host. *)
+Example C03_nonvacuous_addresses :
+  let tr := [(4117, Tok 2 1 0); (4133, Tok 2 2 0); (4117, Tok 4 1 0); (4133, Tok 4 1 0)] in
+  Forall (fun p : N * input => fst p = 4117 \/ to16 (ip_bytes (fst p)) <> to16 (ip_bytes 4117)) tr /\
+  port_of 4117 = port_of 4133 /\
+  obs 4117 (svc_run SVC_TFTP tr) = obs 4117 (svc_run SVC_TFTP (own 4117 tr)) /\
+  obs 4117 (svc_run SVC_TFTP tr) = ([4000; 4001], [mkEv 2 1; mkEv 3 ((hash_fill 0 (fill_of 4117) 100 * 10 + 1) * 100000 + 100)]) /\
+  obs 4133 (svc_run SVC_TFTP tr) = ([4000; 4001], [mkEv 2 2; mkEv 3 ((hash_fill 0 (fill_of 4133) 100 * 10 + 2) * 100000 + 100)]) /\
+  peer_of 21 = peer_of (FAM + 21) /\ ip_of 21 <> ip_of (3 * FAM + 21) /\
+  peer_of (2 * FAM + 21) <> peer_of (2 * FAM + 37) /\ peer_of 21 <> peer_of 22.
+Proof.
+  split.
+  { repeat (apply Forall_cons; [first [left; reflexivity | right; vm_compute; discriminate]|]); apply Forall_nil. }
+  repeat split; vm_compute; try reflexivity; discriminate.
+Qed.
+
+(* what the theorem excludes: a key built from IP.To4() (4 bytes, zero for an IPv6 host) is not
+   one-to-one - the two clients above would share a slot of the transfer table *)
+Example C03_truncated_key_collides :
+  let to4_key (ip : list N) (port : N) :=
+    be_value 0 (if Nat.eqb (length ip) 4 then ip else if is_v4mapped ip then skipn 12 ip else [0;0;0;0]) * PORTS + port in
+  to4_key (ip_bytes 4117) (port_of 4117) = to4_key (ip_bytes 4133) (port_of 4133) /\
+  peer_of 4117 <> peer_of 4133.
+Proof. split; vm_compute; [reflexivity|discriminate]. Qed.
 
 (* ldap: A binds, B connects, A's delete is answered on A's connection, as the bound user *)
 Example C03_ldap_former_witness :
@@ -213,26 +282,28 @@ Proof. vm_compute. reflexivity. Qed.
 (* the checker still recognises each former defect from an observation that shows it *)
 Example C03_checker_verdicts :
   let e c t a p := mkOE c t a 0 p in
+  let ks := [(17, 0, 0); (34, 1, 1)] in
   let ldap_bad := mkCase 0 SVC_LDAP ldap_w1
-        [([], []); ([(17, 1001000)], [e 17 1 1 389]); ([], []); ([(34, 2011053)], [e 17 4 2 389])] in
+        [([], []); ([(17, 1001000)], [e 17 1 1 389]); ([], []); ([(34, 2011053)], [e 17 4 2 389])] ks in
   let ftp_bad_cwd := mkCase 0 SVC_FTP ftp_w2
         [([(17, 220000)], []); ([(17, 331000)], [e 17 1 17 21]); ([(17, 230000)], [e 17 1 33 21]);
          ([(34, 220000)], []); ([(34, 331000)], [e 34 1 17 21]); ([(34, 230000)], [e 34 1 33 21]);
-         ([(17, 250001)], [e 17 1 65 21]); ([(34, 257001)], [e 34 1 48 21])] in
+         ([(17, 250001)], [e 17 1 65 21]); ([(34, 257001)], [e 34 1 48 21])] ks in
   let smtp_bad := mkCase 0 SVC_SMTP smtp_w1
         [([(17, 220000)], []); ([(17, 250000)], [e 17 1 1 25]); ([(34, 220000)], []);
          ([(34, 250000)], [e 34 1 1 25]); ([(34, 250000)], [e 34 1 2 25]); ([(34, 354000)], [e 34 1 4 25]);
-         ([(34, 250000)], [e 17 2 7006 25])] in
+         ([(34, 250000)], [e 17 2 7006 25])] ks in
   let mk svc tr := mkCase 0 svc tr
         (map (fun o : outs => (fst o, map (fun x : N * ev => mkOE (fst x) (e_type (snd x)) (e_arg (snd x)) 0 (svc_port svc (fst x))) (snd o)))
-             (svc_run svc tr)) in
+             (svc_run svc tr)) ks in
   case_sigs ldap_bad = [SIG_REPLY_ELSEWHERE; SIG_REPLIES_DEPEND] /\
   case_sigs ftp_bad_cwd = [SIG_REPLIES_DEPEND] /\
   case_sigs smtp_bad = [SIG_EVENT_ELSEWHERE] /\
   model_ok ldap_bad = false /\ model_ok ftp_bad_cwd = false /\ model_ok smtp_bad = false /\
   case_sigs (mk SVC_LDAP ldap_w1) = [] /\ case_sigs (mk SVC_FTP ftp_w2) = [] /\
   case_sigs (mk SVC_SMTP smtp_w1) = [] /\ case_sigs (mk SVC_SMTP2 smtp_w1) = [] /\
-  case_sigs (mk SVC_REDIS [(17, Open); (34, Open); (17, Tok 1 0 0); (34, Tok 2 0 0)]) = [].
+  case_sigs (mk SVC_REDIS [(17, Open); (34, Open); (17, Tok 1 0 0); (34, Tok 2 0 0)]) = [] /\
+  model_ok (mk SVC_LDAP ldap_w1) = true /\ model_ok (mk SVC_FTP ftp_w2) = true.
 Proof. repeat split; vm_compute; reflexivity. Qed.
 
 Print Assumptions C03_frame.
@@ -251,6 +322,10 @@ Print Assumptions C03_earlier_sessions_irrelevant.
 Print Assumptions C03_tftp_keyed_isolation.
 Print Assumptions C03_tftp_earlier_clients_irrelevant.
 Print Assumptions C03_tftp_outputs_own.
+Print Assumptions C03_peer_key_injective.
+Print Assumptions C03_peer_key_injective_same_family.
+Print Assumptions C03_connection_keys_faithful.
+Print Assumptions C03_tftp_isolated_from_other_hosts.
 Print Assumptions C03_limiter_independent.
 Print Assumptions C03_limiter_burst.
 Print Assumptions C03_limiter_checker_closed_form.
